@@ -867,7 +867,7 @@ class FunctionEmitterVisitor(OpVisitor[None]):
     def visit_float_neg(self, op: FloatNeg) -> None:
         dest = self.reg(op)
         src = self.reg(op.src)
-        self.emit_line(f"{dest} = -{src};")
+        self.emit_line(f"{dest} = -({src});")
 
     def visit_float_comparison_op(self, op: FloatComparisonOp) -> None:
         dest = self.reg(op)
